@@ -577,7 +577,7 @@ class Interp:
                 return obj.attrs[a]
             f = self.p.resolve(obj.cls, a)
             if f is not None:
-                return BoundMethod(obj, f)
+                return f if f.is_static else BoundMethod(obj, f)
             raise AnalysisError("%s:%d attribute self.%s unknown to the analysis" % (func.qualname, node.lineno, a))
         if isinstance(obj, ModuleRef):
             return ModuleRef(obj.name + "." + a)
